@@ -79,11 +79,12 @@ TProj ==
   /\ (Has("res") => (Line.t \in DOMAIN res /\ res[Line.t] = Line.res))
   /\ UNCHANGED vars
 
+TPutFail == Ev("PutFail") /\ PutFail(Line.t, Line.len)
 TGet == Ev("Get") /\ open /\ GetRes(Line.s) = Line.res /\ UNCHANGED vars
 TDown == Ev("Down") /\ Down
 TReopen == Ev("Reopen") /\ Reopen
 
-TraceNext == TReset \/ TOp \/ TStore \/ TProj \/ TGet \/ TDown \/ TReopen
+TraceNext == TReset \/ TOp \/ TStore \/ TProj \/ TGet \/ TPutFail \/ TDown \/ TReopen
 TraceSpec == TraceInit /\ [][TraceNext]_tvars
 
 \* the action properties of WALQueue, exempting the harness' own Reset lines
